@@ -156,6 +156,29 @@ pub fn check_case(c: &Case, rep: &mut Report) {
         tr.interrupt_every(intr);
     }
     let intr_probe = tr.clone();
+    if c.class == "paced-delivery" && !tls_level {
+        // stalls in the middle of frame bodies (and one inside a header): a frame is what it is however long it takes
+        let mut pr = Rng::new(crate::rng::fnv(format!("{:?}{}", c.schedule, total_len).as_bytes()));
+        let mut pauses = Vec::new();
+        let mut start = 0usize;
+        for (fi, e) in ends.iter().enumerate() {
+            let len = e - start;
+            if len > 6 && fi % 2 == 0 {
+                // one long stall or several shorter ones that add up
+                if pr.chance(1, 2) {
+                    pauses.push((start + len / 2, c.schedule.last().cloned().unwrap_or(2400) as u64));
+                } else {
+                    let total = c.schedule.last().cloned().unwrap_or(2400) as u64;
+                    pauses.push((start + 5, total / 2 + 50));
+                    pauses.push((start + len - 1, total / 2 + 50));
+                }
+            } else if fi == 1 {
+                pauses.push((start + 1, 300));
+            }
+            start = *e;
+        }
+        tr.set_pauses(pauses);
+    }
     let probe = tr.clone();
     let frames = c.frames.clone();
     let mut viol: Vec<(String, String)> = Vec::new();
@@ -328,6 +351,7 @@ pub fn check_case(c: &Case, rep: &mut Report) {
     rep.set("schedules", format!("{:?}", &c.schedule[..c.schedule.len().min(6)]));
     rep.set("classes", c.class.to_string());
     rep.count("read_calls_interrupted", intr_probe.interrupted());
+    rep.count("milliseconds_stalled_inside_frames", intr_probe.paused_ms());
     if rep.want_sample() && total_len < 80 {
         let j = c.to_json();
         rep.sample(|| j);
@@ -416,6 +440,17 @@ pub fn make_case(class: u64, idx: u64, seed: u64, quick: bool) -> Case {
                 schedule.push(r.range(1, 5) as usize);
             }
             Case { level, frames, schedule, class: "header-splits" }
+        }
+        7 => {
+            // paced delivery: a handful of frames of both kinds; the last schedule entry is the stall in milliseconds
+            let stall = if quick { [600usize, 1200, 2400, 3300][(idx % 4) as usize] } else { [2400usize, 5500, 11000, 31000][(idx % 4) as usize] };
+            let frames = vec![
+                Frame::tpkt(0, payload_for(&mut r, 40 + (idx as usize % 7), xl)),
+                Frame::fp(0x80, false, r.bytes(9)),
+                Frame::fp(0x40, true, r.bytes(300)),
+                Frame::tpkt(0, stamp(7)),
+            ];
+            Case { level, frames, schedule: vec![r.range(1, 64) as usize, 17, stall], class: "paced-delivery" }
         }
         5 => {
             // long runs of tiny frames on one client (state carried from frame to frame), then stamped frames
@@ -585,12 +620,13 @@ pub fn run(cfg: &Cfg) -> Report {
         (4, cfg.n(40_000, 3_000_000)),
         (5, cfg.n(240, 12_000)),
         (6, cfg.n(1_500, 100_000)),
+        (7, 16),
     ];
     for (class, n) in plan {
         if !cfg.wants(class) {
             continue;
         }
-        let rep = par_run(cfg, n, 64, |idx, rep| {
+        let rep = par_run(cfg, n, if class == 7 { 1 } else { 64 }, |idx, rep| {
             mon::begin_case(13, class, idx, seed);
             let c = make_case(class, idx, seed, quick);
             check_case(&c, rep);
